@@ -300,6 +300,73 @@ class Program:
                         self.modules[name] = m
                         self.files.append(rel)
 
+    # -- module-level mutable state: every path starts from what the modules looked like right after import
+    def snapshot_static(self):
+        """remember the content of every container / instance / class namespace reachable from module level"""
+        from .closure import clone
+
+        static = self.__dict__.setdefault("_static", {})
+        seen = set()
+
+        def walk(v):
+            if isinstance(v, (DictV, ListV, SetV)):
+                if id(v) in seen:
+                    return
+                seen.add(id(v))
+                items = list(v.items.values()) if isinstance(v, DictV) else list(v.items)
+                if id(v) not in static:
+                    static[id(v)] = (v, clone(v.items))
+                for x in items:
+                    walk(x)
+            elif isinstance(v, Obj) and not isinstance(v, ConstObj):
+                if id(v) in seen:
+                    return
+                seen.add(id(v))
+                if id(v) not in static:
+                    static[id(v)] = (v, clone(v.fields))
+                for x in list(v.fields.values()):
+                    walk(x)
+            elif isinstance(v, ClassV) and v.module is not None:
+                if id(v) in seen:
+                    return
+                seen.add(id(v))
+                if id(v) not in static:
+                    static[id(v)] = (v, dict(v.ns))
+                for x in list(v.ns.values()):
+                    walk(x)
+            elif isinstance(v, tuple):
+                for x in v:
+                    walk(x)
+
+        for m in self.modules.values():
+            if m.loaded:
+                if id(m) not in static:
+                    static[id(m)] = (m, dict(m.ns))
+                else:
+                    static[id(m)] = (m, dict(m.ns)) if not getattr(self, "_static_dirty", False) else static[id(m)]
+                for x in list(m.ns.values()):
+                    walk(x)
+
+    def touch_static(self, obj):
+        if id(obj) in self.__dict__.get("_static", ()):
+            self._static_dirty = True
+
+    def restore_static(self):
+        """undo what an earlier path wrote into module-level state (in place, identities are kept)"""
+        from .closure import clone
+
+        if not getattr(self, "_static_dirty", False):
+            return
+        for obj, saved in self.__dict__.get("_static", {}).values():
+            if isinstance(obj, (DictV, ListV, SetV)):
+                obj.items = clone(saved)
+            elif isinstance(obj, Obj):
+                obj.fields = clone(saved)
+            elif isinstance(obj, (ClassV, ModuleV)):
+                obj.ns.clear()
+                obj.ns.update(saved)
+        self._static_dirty = False
+
     def digest(self, rels=None):
         import hashlib
 
@@ -378,6 +445,7 @@ class Interp:
         self.live_gens = []
         self.gen_stack = []
         self.dead = False
+        program.restore_static()
         self.chooser.cleanups.append(self.finish)
         if not getattr(program, "_prelude_builtins", False):
             program._prelude_builtins = True
@@ -542,6 +610,8 @@ class Interp:
         finally:
             self.load_mode -= 1
             self.frames.pop()
+        if self.load_mode == 0:
+            self.program.snapshot_static()
 
     def resolve_import(self, frame, modname, level):
         """-> ModuleV for repository modules, model module or Ext for everything else."""
@@ -822,6 +892,15 @@ class Interp:
         elif isinstance(t, ast.Attribute):
             obj = self.eval(t.value, fr)
             self.setattr(obj, self.mangle(t.attr, fr), v, t)
+        elif isinstance(t, ast.Subscript) and isinstance(t.slice, ast.Slice):
+            obj = self.eval(t.value, fr)
+            lo = self.eval(t.slice.lower, fr) if t.slice.lower else None
+            hi = self.eval(t.slice.upper, fr) if t.slice.upper else None
+            st = self.eval(t.slice.step, fr) if t.slice.step else None
+            if not isinstance(obj, ListV) or not all(x is None or isinstance(x, int) for x in (lo, hi, st)):
+                self.unsupported(f"slice assignment on {obj!r}", t)
+            obj.items[lo:hi:st] = list(self.materialize(v, t))
+            self.mutated(obj, t)
         elif isinstance(t, ast.Subscript):
             obj = self.eval(t.value, fr)
             idx = self.eval(t.slice, fr)
@@ -1226,6 +1305,8 @@ class Interp:
         name = self.mangle(name, fr)
         if name in fr.globals_decl:
             fr.module.ns[name] = v
+            if not self.load_mode:
+                self.program.touch_static(fr.module)
         elif name in fr.nonlocal_decl:
             for d in fr.closure:
                 if name in d:
@@ -1541,6 +1622,10 @@ class Interp:
             if isinstance(a, BoundMethod) and isinstance(b, BoundMethod):
                 return a.func is b.func and a.self_obj is b.self_obj
             return a is b
+        if isinstance(a, Ext) and isinstance(b, Ext) and a is not b and not ({a.role, b.role} & {"module", "class", "function", "userfn", "bound"}):
+            # two values produced by third-party / user code: equal or not is not known
+            x, y = sorted((("ext", a.uid, a.path), ("ext", b.uid, b.path)))
+            return Cond(("exteq", x, y))
         if isinstance(a, (Obj, Ext, ClassV, FuncV, ListV, DictV)) or isinstance(b, (Obj, Ext, ClassV, FuncV, ListV, DictV)):
             if isinstance(a, Obj) and a.cls.lookup("__eq__")[1] is not None:
                 self.unsupported("__eq__", node)
@@ -1697,6 +1782,8 @@ class Interp:
         self.unsupported(f"subscript of {obj!r}", node)
 
     def mutated(self, container, node=None):
+        if not self.load_mode:
+            self.program.touch_static(container)
         if self.hooks is not None and hasattr(self.hooks, "on_mutate"):
             self.hooks.on_mutate(self, container, node)
 
@@ -2008,12 +2095,15 @@ class Interp:
                     self.call(self.bind(s_, cv, sc), [obj, v], {}, node)
                     return
             obj.fields[name] = v
+            if not self.load_mode:
+                self.program.touch_static(obj)
             if self.hooks is not None and hasattr(self.hooks, "on_setattr"):
                 self.hooks.on_setattr(self, obj, name, v, node)
             return
         if isinstance(obj, ClassV):
             if not obj.mutable and not self.load_mode:
                 self.emit("class_write", f"{obj.qualname}.{name}", [v], node=node)
+                self.program.touch_static(obj)
             obj.ns[name] = v
             return
         if isinstance(obj, FuncV):
